@@ -30,6 +30,9 @@ type cfg struct {
 	SetLen  int     `json:"set_max_len"`
 	Roots   [][]int `json:"roots"` // nil => New; otherwise NewWithData(copy)
 	RootCap []int   `json:"root_spare_cap"`
+	// NoMerge > 0: enumerate every history up to this depth without merging
+	// states (hidden state that no key shows, e.g. a stale cached function).
+	NoMerge int `json:"unmerged_depth,omitempty"`
 }
 
 type counters struct {
@@ -113,6 +116,8 @@ func (s *inst) Key() string {
 	if s.emptied {
 		sb.WriteString(" E")
 	}
+	sb.WriteString(" ")
+	sb.WriteString(mc.Fingerprint(s.q)) // fields the harness does not know about
 	return sb.String()
 }
 
@@ -323,7 +328,7 @@ func (s *inst) observe() *mc.Failure {
 
 func makeBFS(c *cfg, cnt *counters) *mc.BFS[op] {
 	return &mc.BFS[op]{
-		Name: "heap-bfs", Config: c, NRoots: 2 * len(c.Roots), Merge: true,
+		Name: "heap-bfs", Config: c, NRoots: 2 * len(c.Roots), Merge: c.NoMerge == 0, MaxDepth: c.NoMerge,
 		Root: func(i int) (mc.Inst[op], *mc.Failure) {
 			s := &inst{c: c, cnt: cnt, desc: i%2 == 1}
 			r := c.Roots[i/2]
@@ -525,6 +530,11 @@ func main() {
 				deep := &cfg{V: 3, N: mc.Pick(r, 10, 12), SetV: 1, SetLen: 0}
 				deep.Roots, deep.RootCap = [][]int{nil}, []int{0}
 				res2 := makeBFS(deep, &cnt).Run(r)
+				// every history to a small depth, no merging at all
+				flat := &cfg{V: 2, N: 3, SetV: 2, SetLen: 1, NoMerge: mc.Pick(r, 5, 6)}
+				flat.Roots, flat.RootCap = [][]int{nil, {1, 0}}, []int{0, 1}
+				res3 := makeBFS(flat, &cnt).Run(r)
+				r.Bound("unmerged_configuration", fmt.Sprintf("2 values, up to 3 elements, Set of [], [0], [1]: every history up to depth %d without state merging: %d histories", flat.NoMerge, res3.States))
 				r.Bound("deeper_configuration", fmt.Sprintf("3 values, up to %d elements, no Set: %d states, %d transitions", deep.N, res2.States, res2.Transitions))
 				r.Bound("values", c.V)
 				r.Bound("max_len", c.N)
